@@ -20,7 +20,7 @@ import filters as F
 import universe as U
 
 CONF = {
-    "C04": dict(universes=["core", "c09", "c09b", "c09c", "c10c", "c10", "c11b"], probes=False, extra=False),
+    "C04": dict(universes=["core", "c09", "c09b", "c09c", "c10c", "c10", "c11b", "c16"], probes=False, extra=False),
     "C09": dict(universes=["c09", "c09b", "core", "c09c", "c09t"], probes=False, extra=False),
     "C10": dict(universes=["c10", "c10b", "core", "c10c", "c10d", "c10e"], probes=False, extra=False),
     "C11": dict(universes=["c11", "c11b", "core", "c16", "c09t"], probes=False, extra=False),
